@@ -219,6 +219,42 @@ func subShape(r *rand.Rand, a *exact.Shape, kind exact.Kind) *exact.Shape {
 	return nil
 }
 
+// grazeLine builds a line through a vertex (or corner) v of shape a along a
+// random lattice direction with long legs on both sides, so that the line may
+// touch a only at v (slopes such as 15:-5 included).
+func grazeLine(r *rand.Rand, a *exact.Shape) *exact.Shape {
+	var vs []exact.P
+	switch a.Kind {
+	case exact.KPoly:
+		vs = a.Ext
+	case exact.KRect:
+		mn, mx := a.Pts[0], a.Pts[1]
+		vs = []exact.P{mn, {X: mx.X, Y: mn.Y}, mx, {X: mn.X, Y: mx.Y}}
+	default:
+		vs = a.Pts
+	}
+	if len(vs) == 0 {
+		return nil
+	}
+	v := vs[r.Intn(len(vs))]
+	dx, dy := r.Int63n(41)-20, r.Int63n(41)-20
+	if dx == 0 && dy == 0 {
+		dx = 1
+	}
+	k1, k2 := 1+r.Int63n(3), 1+r.Int63n(3)
+	step := int64(gen.U)
+	if r.Intn(3) == 0 {
+		step = gen.U / 2
+	}
+	p := exact.P{X: v.X - k1*dx*step, Y: v.Y - k1*dy*step}
+	q := exact.P{X: v.X + k2*dx*step, Y: v.Y + k2*dy*step}
+	pts := []exact.P{p, q}
+	if r.Intn(3) == 0 {
+		pts = []exact.P{p, v, q} // the touched vertex is a vertex of the line too
+	}
+	return &exact.Shape{Kind: exact.KLine, Pts: pts}
+}
+
 // randomPairs draws contact-biased valid pairs of every kind combination.
 func randomPairs(c *mon.Ctx, o pairOpts, item *int, sink pairSink) {
 	for i := 0; i < o.random; i++ {
@@ -234,7 +270,13 @@ func randomPairs(c *mon.Ctx, o pairOpts, item *int, sink pairSink) {
 		a := gen.RandShape(r, ka, 3)
 		var b *exact.Shape
 		fam := "random"
-		switch r.Intn(6) {
+		switch r.Intn(7) {
+		case 6:
+			if (ka == exact.KPoly || ka == exact.KRect) && (kb == exact.KLine || r.Intn(3) == 0) {
+				if gl := grazeLine(r, a); gl != nil {
+					b, fam = gl, "graze-line"
+				}
+			}
 		case 0:
 			if hb := holeFamily(r, a); hb != nil {
 				b, fam = hb, "hole-family"
